@@ -289,6 +289,53 @@ func (c *Ctx) checkForwarder(rule string, sp fwdSpec) fwdResult {
 			}
 		}
 	}
+	if sp.mode == fwdCollect && res.listVar != nil {
+		// the collecting list must start empty and private to this call: `var l []T`, `l := make([]T, 0, n)`
+		// or an empty literal - never a field, parameter or other shared slice (appending to a shared
+		// backing array makes every returned handle alias the children of the last one)
+		fresh := false
+		ast.Inspect(decl.Body, func(n ast.Node) bool {
+			switch x := n.(type) {
+			case *ast.ValueSpec:
+				for i, nm := range x.Names {
+					if info.Defs[nm] == res.listVar {
+						if len(x.Values) == 0 {
+							fresh = true
+						} else if i < len(x.Values) {
+							fresh = emptyFreshSlice(x.Values[i])
+						}
+					}
+				}
+			case *ast.AssignStmt:
+				if x.Tok == token.DEFINE {
+					for i, l := range x.Lhs {
+						if id, ok := l.(*ast.Ident); ok && info.Defs[id] == res.listVar && i < len(x.Rhs) {
+							fresh = emptyFreshSlice(x.Rhs[i])
+						}
+					}
+				}
+			}
+			return true
+		})
+		if !fresh {
+			return fail(loopPos, "the list the children's handles are collected into does not start as an empty slice private to this call (it is taken from a field or another shared slice): handles returned by different calls share one backing array and report to the wrong children")
+		}
+		// and it must not be reassigned elsewhere
+		nAssign := 0
+		ast.Inspect(decl.Body, func(n ast.Node) bool {
+			if as, ok := n.(*ast.AssignStmt); ok && as.Tok == token.ASSIGN {
+				for _, l := range as.Lhs {
+					if id, isId := l.(*ast.Ident); isId && info.Uses[id] == res.listVar {
+						nAssign++
+					}
+				}
+			}
+			return true
+		})
+		if nAssign != 1 {
+			return fail(loopPos, "the collecting list is assigned outside the per-child append")
+		}
+	}
 	if sp.mode != fwdErrExit && sp.mode != fwdBoolAnd {
 		if pos, esc := hasLoopEscape(loopBody); esc {
 			return fail(pos, "the loop over the children can be left early")
@@ -398,4 +445,21 @@ func (c *Ctx) boolExitStmt(info *types.Info, st ast.Stmt, fwd *ast.CallExpr) boo
 		return okL && okC && info.Defs[lid] != nil && info.Uses[cid] == info.Defs[lid]
 	}
 	return x.Init == nil && un.X == ast.Expr(fwd)
+}
+
+// emptyFreshSlice: make([]T, 0[, n]), []T{} or nil.
+func emptyFreshSlice(e ast.Expr) bool {
+	switch x := ast.Unparen(e).(type) {
+	case *ast.CallExpr:
+		if id, ok := x.Fun.(*ast.Ident); ok && id.Name == "make" && len(x.Args) >= 2 {
+			if lit, isLit := x.Args[1].(*ast.BasicLit); isLit && lit.Value == "0" {
+				return true
+			}
+		}
+	case *ast.CompositeLit:
+		return len(x.Elts) == 0
+	case *ast.Ident:
+		return x.Name == "nil"
+	}
+	return false
 }
